@@ -1186,6 +1186,8 @@ static void scen_dirs() {
   vfs::mkfile("/sim/treex", "not part of the tree");
   auto keep_before = vfs::snapshot("/sim/keep");
   vfs::world().shuffle_readdir = choose(2, "D.shuffle");
+  // readdir() may or may not know the type of an entry (d_type is DT_UNKNOWN on some file systems)
+  vfs::world().dirent_types_known = choose(2, "D.d_type_known");
   if (tg.all_paths.size() > 1) mark_nontrivial();
   note("tree with " + std::to_string(tg.all_paths.size()) + " entries");
 
@@ -1198,7 +1200,7 @@ static void scen_dirs() {
     unsigned len = 1 + choose(12, "D.rawpath.len");
     bool has_slash = false;
     for (unsigned i = 0; i < len; i++) {
-      char ch = "/ab./"[choose(5, "D.rawpath.ch")];
+      char ch = "/ab./\\ "[choose(7, "D.rawpath.ch")]; // (a backslash and a blank are ordinary name characters)
       has_slash |= ch == '/';
       p += ch;
     }
@@ -1491,6 +1493,7 @@ static void scen_poll() {
   vfs::world().own_empty_polls = true;
   int fds[3];
   bool closed[3] = {false, false, false};
+  bool closed_behind[3] = {false, false, false}; // closed by the owner while (possibly) still registered
   for (int i = 0; i < 3; i++) fds[i] = vfs::open_stream_fd("data", 0, 0);
   // shuffle registration order relative to numeric order
   std::map<int, short> model;
@@ -1502,8 +1505,18 @@ static void scen_poll() {
   static const short EVS[] = {POLLIN, POLLOUT, POLLIN | POLLOUT, POLLPRI};
   for (unsigned i = 0; i < nops && !failed(); i++) {
     unsigned k = choose(3, "F.fd");
-    unsigned op = choose(5, "F.op");
-    if (closed[k]) {
+    unsigned op = choose(6, "F.op");
+    if (op == 5 && !closed[k] && !closed_behind[k]) {
+      // the owner closes a descriptor behind Poll's back (it stays registered): the next poll() reports POLLNVAL
+      // for it; the set itself is unchanged - Poll is a map, only add and remove change it
+      ev("op.poll.owner_closes", k, model.count(fds[k]));
+      close(fds[k]);
+      closed_behind[k] = true;
+      VS_PROBE("poll.registered_fd_closed");
+      continue;
+    }
+    if (op == 5) op = 4;
+    if (closed[k] && !closed_behind[k]) {
       fds[k] = vfs::open_stream_fd("data", 0, 0);
       closed[k] = false;
     }
@@ -1520,6 +1533,7 @@ static void scen_poll() {
       }
       case 2: {
         bool close_fd = choose(3, "F.remove.close") == 2;
+        if (closed_behind[k]) close_fd = false; // its owner has closed it already
         bool present = model.count(fds[k]);
         ev("op.poll.remove", k, close_fd);
         p.remove(fds[k], close_fd);
@@ -1531,12 +1545,17 @@ static void scen_poll() {
           if (!of->is_open) closed[k] = true;
         }
         if (present) VS_PROBE("poll.remove_present");
+        if (closed_behind[k]) {
+          // closed and no longer registered: the slot gets a fresh descriptor next time
+          closed_behind[k] = false;
+          closed[k] = true;
+        }
         break;
       }
       case 3: {
         // change readiness, then poll
         for (int j = 0; j < 3; j++) {
-          if (closed[j]) continue;
+          if (closed[j] || closed_behind[j]) continue;
           static const short RDY[] = {0, POLLIN, POLLOUT, POLLIN | POLLOUT, POLLHUP, POLLIN | POLLHUP, POLLPRI};
           vfs::fd_entry(fds[j])->ready = RDY[choose(7, "F.ready")];
         }
@@ -1555,7 +1574,7 @@ static void scen_poll() {
         std::map<int, short> want;
         for (auto& kv : model) {
           auto* of = vfs::fd_entry(kv.first);
-          short re = of->ready & (kv.second | POLLHUP | POLLERR);
+          short re = of->is_open ? (short)(of->ready & (kv.second | POLLHUP | POLLERR)) : (short)POLLNVAL;
           if (re) want[kv.first] = re;
         }
         std::map<int, short> got_sorted(got.begin(), got.end());
@@ -1633,7 +1652,7 @@ int main(int argc, char** argv) {
       {"concurrent deleter / replacer process", "stub: task scheduled between the library's path-based calls"}};
   e.expected_probes = {"read_all_fd.saw_short_read", "read_all_fd.crossed_16k_block", "read_all_file.error_mid_stream", "read_all_file.crossed_16k_block",
       "fgets.line_longer_than_block", "fgets.line_longer_than_two_blocks", "fgets.line_exactly_block", "readx.threw_on_short", "save_file.threw_on_write_fault",
-      "load_file.threw_on_read_fault", "unlink.threw_on_eacces", "scoped_fd.move_assign_over_open", "scoped_fd.failed_open", "poll.readd_existing", "poll.remove_present", "read_all_fd.real_pipe", "read_helpers_on_regular_file", "tree_with_fifo", "tree_with_symlink", "scoped_fd.holds_descriptor_0", "load_file.file_truncated_concurrently", "read_all_file.real_fd_buffered", "FILE_on_sizeless_file"};
+      "load_file.threw_on_read_fault", "unlink.threw_on_eacces", "scoped_fd.move_assign_over_open", "scoped_fd.failed_open", "poll.readd_existing", "poll.remove_present", "poll.registered_fd_closed", "read_all_fd.real_pipe", "read_helpers_on_regular_file", "tree_with_fifo", "tree_with_symlink", "scoped_fd.holds_descriptor_0", "load_file.file_truncated_concurrently", "read_all_file.real_fd_buffered", "FILE_on_sizeless_file"};
   e.expected_faults = {"short_read", "short_write", "EIO@read", "EINTR@read", "ENOSPC@write", "EINTR@write", "EINTR@poll", "EACCES@unlink", "EACCES@rmdir", "concurrent_delete", "ENOSPC@capacity", "EINTR@close", "staggered_pipe_write", "EAGAIN@read", "concurrent_truncate", "second_thread_reads_another_fd"};
   // "file_replaced_while_open" fires only when the code under test asks the PATH again after opening it;
   // the repository's load_file uses fstat() on the descriptor, so on the unchanged tree the counter stays 0
